@@ -11,6 +11,7 @@ import TzVerif.Model.DateTime
 import TzVerif.Spec.Text
 import TzVerif.Proofs.Text
 import TzVerif.Proofs.SrcEqFmt
+import TzVerif.Generated.StableC18   -- per run: the current translation (SrcNow) equals the baseline (Src) these theorems are about
 
 namespace TzVerif.C18
 open TzVerif.Model
